@@ -31,7 +31,7 @@ Obs == [c |-> [k \in Calls |-> CallCode(k)],
 Cmd(o, a) == /\ hist' = Append(hist, [o |-> o, a |-> a, post |-> Obs])
              /\ settled' = FALSE
 
-Plain(A) == A /\ UNCHANGED cancelReq /\ TrackSlot
+Plain(A) == Guarded(A)
 Command ==
   \/ \E k \in Calls : \/ Plain(StartCall(k)) /\ Cmd("start", k)
                       \/ Plain(SendEnd(k) \/ SendFail(k)) /\ Cmd("release", k)
@@ -42,6 +42,8 @@ Command ==
   \/ Plain(PeerCloseC) /\ Cmd("eof", 0)
   \/ Plain(LocalClose) /\ Cmd("close", 0)
   \/ CancelReq /\ Cmd("cancel", 0)
+  \/ Pause /\ Cmd("pause", 0)
+  \/ Resume /\ Cmd("resume", 0)
 
 Settle == /\ ~settled /\ settled' = TRUE
           /\ hist' = [hist EXCEPT ![Len(hist)].post = Obs]
